@@ -101,9 +101,10 @@ def ff_design(rng, name):
   g.source = lambda: g.src
   return g
 
-def oracle_tick(ctx, top, g, fpl, src, cyc):
+def oracle_tick(ctx, top, g, fpl, src, cyc, both=False):
   """emulate one sim_tick from the ff_observes_preedge theorem: each update_ff block alone on the pre-edge state"""
   for b in top._sched.update_schedule: b()
+  snap_eval = sc.snapshot(top)
   pre = sc.save_state(top)
   # hold invariant: before the ff phase next == current for every double-buffered leaf
   for x, u, nx in pre:
@@ -130,6 +131,7 @@ def oracle_tick(ctx, top, g, fpl, src, cyc):
   for x, u, nx in pre:
     if nx is not None: x._uint = x._next
   for b in top._sched.update_schedule: b()
+  if both: return snap_eval, sc.snapshot(top)
   return sc.snapshot(top)
 
 def run(ctx):
@@ -183,6 +185,40 @@ def run(ctx):
     except Exception as e:
       ctx.violation(f'C07:design-crash:{g.name}:{type(e).__name__}', f'design {g.name} could not be simulated: {type(e).__name__}: {str(e)[:200]}',
                     {'design_source': src, 'traceback': traceback.format_exc()[-2000:]})
+  # Bits-level: sequences of <<= (ints and Bits, including values equal to the current / pending value) then _flip,
+  # against the specification the generated __ilshift__/_flip are proved equal to
+  from pymtl3.datatypes import Bits
+  seqs, smeta = [], []
+  for t in range(300 if quick else 3000):
+    n = rng.choice([1, 2, 4, 8, 8, 16, 33, 64])
+    u0 = rng.getrandbits(n)
+    x = Bits(n, u0); x <<= x
+    ops = []
+    for j in range(rng.randrange(1, 4)):
+      kind = rng.random()
+      val = rng.choice([u0, x._next, 0, (1 << n) - 1, rng.getrandbits(n)])
+      if kind < 0.6: ops.append(('int', val))
+      elif kind < 0.75 and val >= (1 << (n - 1)): ops.append(('int', val - (1 << n)))     # negative int with the same bits
+      else: ops.append(('bits', n, val))
+      o = ops[-1]
+      x <<= (o[1] if o[0] == 'int' else Bits(n, o[2]))
+    vis = int(x._uint); x._flip()
+    term = coq_list([f'(OInt {zlit(o[1])})' if o[0] == 'int' else f'(OBits {o[1]} {zlit(o[2])})' for o in ops])
+    seqs.append(f'({n}, {zlit(u0)}, {term}, {zlit(vis)}, {zlit(int(x._uint))})'); smeta.append((n, u0, ops, vis, int(x._uint)))
+    ctx.count(('bits-seq', n, u0, tuple(ops)), True, cls='bits-ilshift-seq')
+  defs = '''
+Fixpoint run_seq (n u nx : Z) (ops : list operand) : res (Z * Z) :=
+  match ops with
+  | [] => Ok (u, nx)
+  | o :: r => match spec_ilshift n u nx o with Ok s => run_seq n (snd (fst s)) (snd s) r | Err e => Err e end
+  end.
+'''
+  badq = ctx.coq_bad_indices('seq', 'Base.Prelude Bits.BitsSpec', defs, 'Z * Z * list operand * Z * Z', seqs,
+                             "let '(n, u, ops, vis, fin) := c in match run_seq n u u ops with Ok s => (fst s =? vis) && (snd s =? fin) | Err _ => false end")
+  for i in badq[:5]:
+    n, u0, ops, vis, fin = smeta[i]
+    ctx.violation(f'C07:bits-ilshift-seq:{n}:{u0}:{ops}', f'Bits{n}({u0}) after <<= {ops} and _flip: visible-before-flip {vis}, after flip {fin}; the last assignment must win and nothing may be visible before the flip',
+                  {'nbits': n, 'initial': u0, 'assignments': ops, 'visible_before_flip': vis, 'after_flip': fin})
   bad = ctx.coq_bad_indices('ffsw', 'Base.Prelude Sched.Accept', '', 'design', coq_cases, 'wf_design c && sw_ok c', shard=40)
   for i in bad[:5]:
     ctx.violation(f'C07:ff-single-writer:{coq_meta[i][0]}', f'{coq_meta[i][0]}: two update_ff blocks write one register bit (acceptor sw_ok false)',
@@ -194,7 +230,7 @@ def main(ctx):
   ctx.trusted += ['translators/py2coq_bits.py (Bits.__ilshift__, _flip are generated)', 'harness/sched_common.py (generator, save/restore of simulator state for the oracle)']
   ctx.assumptions += ['the oracle executes the real update_ff block functions one at a time on the saved pre-edge state (theorem ff_observes_preedge says that is what an atomic edge means); block footprints are pymtl3\'s',
                       'struct-typed registers: fieldwise <<=/_flip of bitstructs is covered by C06']
-  ctx.build_props(gen_cmds=[[PY, 'translators/py2coq_bits.py', str(REPO), 'coq/theories/Gen/BitsGen.v']], extra_models=['theories/Sched/Accept.vo'])
+  ctx.build_props(gen_cmds=[[PY, 'translators/py2coq_bits.py', str(REPO), 'coq/theories/Gen/BitsGen.v']], extra_models=['theories/Sched/Accept.vo', 'theories/Bits/BitsSpec.vo'])
   try:
     run(ctx)
   except Exception as e:
